@@ -818,6 +818,37 @@ struct DepsChain {
       for (int i = 0; i < extra; i++) b += (char)C(256);
       Note("damage: random tail after byte " + std::to_string(cut));
       n["random_tails"]++;
+    } else if (kind == 2) {
+      // a tail that looks like a record but whose fields sit on the edge of what is valid: cut at a
+      // record boundary, then a dependency record whose output id (or a dependency id) is the number of
+      // paths read so far - one past the last valid id -, or just around it
+      if (b.size() < 16) return;
+      size_t off = 16, npaths = 0;
+      std::vector<std::pair<size_t, size_t>> bounds;   // (offset, paths before it)
+      bounds.emplace_back(off, 0);
+      while (off + 4 <= b.size()) {
+        uint32_t sz; memcpy(&sz, &b[off], 4);
+        bool is_deps = (sz >> 31) != 0; sz &= 0x7fffffffu;
+        if (sz % 4 != 0 || off + 4 + sz > b.size()) break;
+        if (!is_deps) npaths++;
+        off += 4 + sz;
+        bounds.emplace_back(off, npaths);
+      }
+      auto pick = bounds[C((uint32_t)bounds.size())];
+      b.resize(pick.first);
+      int np = (int)pick.second;
+      static const int kDelta[] = {0, 0, 0, 1, -1, 2};
+      int out_id = np + kDelta[C(6)];
+      if (out_id < 0) out_id = 0;
+      int ndeps = (int)C(3);
+      std::vector<int32_t> words;
+      words.push_back(out_id); words.push_back((int32_t)C(1000)); words.push_back(0);
+      for (int i = 0; i < ndeps; i++) words.push_back(np > 0 && C(3) ? (int32_t)C((uint32_t)np) : np + kDelta[C(6)]);
+      uint32_t sz = (uint32_t)(words.size() * 4) | 0x80000000u;
+      b.append((const char*)&sz, 4);
+      b.append((const char*)words.data(), words.size() * 4);
+      Note("damage: crafted dependency record for output id " + std::to_string(out_id) + " behind " + std::to_string(np) + " path records");
+      n["crafted_edge_records"]++;
     } else {
       return;
     }
